@@ -163,7 +163,11 @@ CHECKS = {
               "entry with equal fields; QRCodeText() parsed by an independent reference parser yields exactly the expected fields. "
               "non-trivial = some field > 32 bytes or containing a separator character; distinct = hash of the configuration"),
         runs=[dict(engine="mdnssim", test="TestC16", quick=dict(checks=20000, shards=4, timeout=600),
-                   thorough=dict(checks=800000, shards=16, timeout=3000))],
+                   thorough=dict(checks=800000, shards=16, timeout=3000)),
+              # the real zeroconf provider over real multicast sockets: 2-4 managers in one process, announce / withdraw / auto accept
+              # histories; what one announces is what the others read (skipped where multicast does not work)
+              dict(engine="zcnet", test="TestC16ZC", shrinktime="1s", may_stop_early=True, quick=dict(checks=3, shards=1, timeout=900),
+                   thorough=dict(checks=40, shards=2, timeout=6000), env=dict(VERIF_BATCH="3"))],
     ),
     "C17": dict(
         level="exploration",
@@ -177,7 +181,10 @@ CHECKS = {
                    thorough=dict(checks=600000, shards=16, timeout=3000)),
               # hub level: real hubs consume the reports (patching fixed IPv4 addresses, dialling); the managers' views must equal what the fabric reported
               dict(engine="hubnet", test="TestC17Hub", shrinktime="1s", quick=dict(checks=4, shards=4, timeout=1200),
-                   thorough=dict(checks=40, shards=4, timeout=6000), env=dict(VERIF_BATCH="8"))],
+                   thorough=dict(checks=40, shards=4, timeout=6000), env=dict(VERIF_BATCH="8")),
+              # the real zeroconf provider over real multicast sockets: the managers' views follow announcements and withdrawals
+              dict(engine="zcnet", test="TestC17ZC", shrinktime="1s", may_stop_early=True, quick=dict(checks=3, shards=1, timeout=900),
+                   thorough=dict(checks=40, shards=2, timeout=6000), env=dict(VERIF_BATCH="3"))],
         assumptions=["removes with invalid TXT for a known service are not generated (neither provider produces them; the statement leaves them open)"],
     ),
     "C19": dict(
@@ -280,9 +287,11 @@ CHECKS = {
                  thorough=dict(checks=40000, shards=1, timeout=4000)),
             dict(engine="mdnssim", test="TestC19", race=True, quick=dict(checks=1500, shards=1, timeout=900),
                  thorough=dict(checks=40000, shards=1, timeout=4000)),
+            dict(engine="zcnet", test="TestC20ZC", race=True, shrinktime="1s", may_stop_early=True, quick=dict(checks=2, shards=1, timeout=900),
+                 thorough=dict(checks=30, shards=2, timeout=6000), env=dict(VERIF_BATCH="3")),
         ],
         assumptions=["the race detector only sees races on executed interleavings: sampling with amplification, not enumeration",
-                     "mdns/zeroconf.go needs multicast sockets and is not exercised"],
+                     "mdns/zeroconf.go is exercised over real multicast sockets where the environment provides them (TestC20ZC), else skipped"],
     ),
     "C02": dict(
         level="exploration",
